@@ -4,6 +4,7 @@ import (
 	"fmt"
 	"go/ast"
 	"go/constant"
+	"go/token"
 	"go/types"
 	"reflect"
 	"sort"
@@ -830,10 +831,13 @@ func ruleAppendSizes(c *Check, rule string) {
 			shapes = append(shapes, shape{3, 0, fl, ts}, shape{0, 0, fl, ts}, shape{3, 200, fl, ts})
 		}
 	}
+	nNoGrow := 0
 	caps := [][2]uint64{{0, 0}, {100, 1 << 20}, {6 << 20, 6 << 20}, {2000 << 20, 2000 << 20}, {10, 1 << 30}}
 	n, bad := 0, 0
 	for _, sh := range shapes {
-		for _, cp := range caps {
+		capList := append([][2]uint64{}, caps...)
+		for ci := 0; ci < len(capList); ci++ {
+			cp := capList[ci]
 			b := Bindings{
 				d + ".dirty":             Tv(false),
 				"len(" + kv + ".Key)":    U(sh.kl),
@@ -940,10 +944,23 @@ func ruleAppendSizes(c *Check, rule string) {
 								}
 							} else if cp[1] < v.U {
 								bad++
+								nNoGrow++
+								if nNoGrow > 3 {
+									continue // a few witnesses are enough
+								}
 								c.Bad(rule, fmt.Sprintf("%s/no-grow:len=%d,cap=%d", name, cp[0], cp[1]), fmt.Sprintf("the buffer (capacity %d) is resliced to %d bytes without growing", cp[1], v.U), c.P.InstrPos(e.Instr), nil)
 							}
 						}
 					}
+				}
+			}
+			// buffer states around the boundary "exactly enough room": the free
+			// capacity equals the space the entry needs, and up to 6 bytes less
+			// (a growth test against the wrong size is off by the 2-6 header bytes)
+			if ci == 0 && reslice != nil {
+				need := *reslice
+				for k := uint64(0); k <= 6 && k <= need; k++ {
+					capList = append(capList, [2]uint64{100, 100 + need - k})
 				}
 			}
 			empty := sh.kl == 0 && sh.vl == 0 && sh.fl == 0 && sh.ts == 0
@@ -1189,8 +1206,101 @@ var writeFitsAssume = map[string]map[string]int64{
 
 func ruleWriteFits(c *Check, rule string) {
 	nBuf, nObl, bad := 0, 0, 0
-	var bufs []string
 	nInFn := map[string]int{}
+	var bufLen LinForm // lower bound of the length of the buffer being analysed
+	type obl struct {
+		fn   *ssa.Function
+		end  ssa.Value
+		ext  LinForm
+		at   ssa.Instruction
+		what string
+		up   *bounder
+	}
+	// collect gathers the write-end obligations of buffer buf inside fn; a
+	// buffer handed whole to another repository function is followed there.
+	var collect func(fn *ssa.Function, buf ssa.Value, depth int, obls *[]obl, windows *int, unknown *[]string, ups map[*ssa.Function]*bounder)
+	collect = func(fn *ssa.Function, buf ssa.Value, depth int, obls *[]obl, windows *int, unknown *[]string, ups map[*ssa.Function]*bounder) {
+		refs := buf.Referrers()
+		if refs == nil || depth > 3 {
+			return
+		}
+		up := ups[fn]
+		if up == nil {
+			up = newBounder(fn, true, writeFitsAssume[QualName(fn)])
+			ups[fn] = up
+		}
+		for _, r := range *refs {
+			switch x := r.(type) {
+			case *ssa.Call:
+				// the whole buffer passed on
+				cal := x.Common().StaticCallee()
+				if cal == nil || cal.Blocks == nil || !strings.HasPrefix(fnPkgPath(cal), modPath) {
+					continue
+				}
+				for ai, a := range x.Common().Args {
+					if a == buf && ai < len(cal.Params) {
+						collect(cal, cal.Params[ai], depth+1, obls, windows, unknown, ups)
+					}
+				}
+			case *ssa.Slice:
+				if x.X != buf {
+					continue
+				}
+				if x.High != nil {
+					*obls = append(*obls, obl{fn, x.High, lfConst(0), x, "slice end", up})
+				}
+				if x.Low == nil {
+					continue
+				}
+				wr := x.Referrers()
+				if wr == nil {
+					continue
+				}
+				for _, u := range *wr {
+					call, ok := u.(*ssa.Call)
+					if !ok {
+						if _, isDbg := u.(*ssa.DebugRef); !isDbg {
+							*unknown = append(*unknown, fmt.Sprintf("%T", u))
+						}
+						continue
+					}
+					cc := call.Common()
+					if bi, ok := cc.Value.(*ssa.Builtin); ok && bi.Name() == "copy" && cc.Args[0] == ssa.Value(x) {
+						*windows++
+						if copyGuarded(call, x, buf) {
+							up.guarded[call] = bufLen // dominated by len(src) <= len(buf) - offset
+							continue
+						}
+						*obls = append(*obls, obl{fn, x.Low, up.lenTerm(cc.Args[1]), call, "copy of " + up.pathOf(cc.Args[1], 0), up})
+						continue
+					}
+					callee := cc.StaticCallee()
+					cn := ""
+					if callee != nil {
+						cn = calleeName(callee)
+					}
+					switch {
+					case cn == "csproto.EncodeTag" || cn == "csproto.EncodeVarint":
+						*windows++
+						*obls = append(*obls, obl{fn, x.Low, up.Eval(call), call, cn, up})
+					case strings.Contains(cn, "littleEndian).PutUint") || strings.Contains(cn, "bigEndian).PutUint"):
+						*windows++
+						if x.High == nil {
+							w := int64(8)
+							if strings.HasSuffix(cn, "32") {
+								w = 4
+							} else if strings.HasSuffix(cn, "16") {
+								w = 2
+							}
+							*obls = append(*obls, obl{fn, x.Low, lfConst(w), call, cn, up})
+						}
+					default:
+						*unknown = append(*unknown, cn)
+					}
+				}
+			}
+		}
+	}
 	for _, fn := range c.P.RepoFuncs() {
 		if shortPkg(fnPkgPath(fn)) != "snapshot" || fn.Blocks == nil {
 			continue
@@ -1214,7 +1324,7 @@ func ruleWriteFits(c *Check, rule string) {
 					ms, msLen = x, x.Len
 				case *ssa.Slice:
 					a, ok := x.X.(*ssa.Alloc)
-					if !ok || !a.Heap && a.Comment != "makeslice" || a.Comment != "makeslice" || !isByteSlice(x.Type()) || x.Low != nil {
+					if !ok || a.Comment != "makeslice" || !isByteSlice(x.Type()) || x.Low != nil {
 						continue
 					}
 					n, ok := arrayLen(a)
@@ -1236,81 +1346,19 @@ func ruleWriteFits(c *Check, rule string) {
 				default:
 					continue
 				}
-				refs := ms.Referrers()
-				if refs == nil {
-					continue
-				}
-				type obl struct {
-					end  ssa.Value
-					ext  LinForm
-					at   ssa.Instruction
-					what string
-				}
 				var obls []obl
 				windows := 0
 				var unknown []string
-				up := newBounder(fn, true, writeFitsAssume[name])
-				for _, r := range *refs {
-					switch x := r.(type) {
-					case *ssa.Slice:
-						if x.X != ms {
-							continue
-						}
-						if x.High != nil {
-							obls = append(obls, obl{x.High, lfConst(0), x, "slice end"})
-						}
-						if x.Low == nil {
-							continue
-						}
-						wr := x.Referrers()
-						if wr == nil {
-							continue
-						}
-						for _, u := range *wr {
-							call, ok := u.(*ssa.Call)
-							if !ok {
-								if _, isDbg := u.(*ssa.DebugRef); !isDbg {
-									unknown = append(unknown, fmt.Sprintf("%T", u))
-								}
-								continue
-							}
-							cc := call.Common()
-							if bi, ok := cc.Value.(*ssa.Builtin); ok && bi.Name() == "copy" && cc.Args[0] == ssa.Value(x) {
-								windows++
-								obls = append(obls, obl{x.Low, up.lenTerm(cc.Args[1]), call, "copy of " + up.pathOf(cc.Args[1], 0)})
-								continue
-							}
-							callee := cc.StaticCallee()
-							cn := ""
-							if callee != nil {
-								cn = calleeName(callee)
-							}
-							switch {
-							case cn == "csproto.EncodeTag" || cn == "csproto.EncodeVarint":
-								windows++
-								obls = append(obls, obl{x.Low, up.Eval(call), call, cn})
-							case strings.Contains(cn, "littleEndian).PutUint") || strings.Contains(cn, "bigEndian).PutUint"):
-								windows++
-								if x.High == nil {
-									w := int64(8)
-									if strings.HasSuffix(cn, "32") {
-										w = 4
-									} else if strings.HasSuffix(cn, "16") {
-										w = 2
-									}
-									obls = append(obls, obl{x.Low, lfConst(w), call, cn})
-								}
-							default:
-								unknown = append(unknown, cn)
-							}
-						}
-					}
+				ups := map[*ssa.Function]*bounder{}
+				bufLen = lfConst(constLen)
+				if msLen != nil {
+					bufLen = newBounder(fn, false, nil).Eval(msLen)
 				}
+				collect(fn, ms, 0, &obls, &windows, &unknown, ups)
 				if windows == 0 {
 					continue
 				}
 				nBuf++
-				bufs = append(bufs, fmt.Sprintf("%s:%s", name, c.P.InstrPos(in)))
 				c.UseFunc(name)
 				nInFn[name]++
 				construct := fmt.Sprintf("%s/buffer#%d", name, nInFn[name])
@@ -1318,10 +1366,7 @@ func ruleWriteFits(c *Check, rule string) {
 					c.Undecided(rule, construct, fmt.Sprintf("a window of the buffer is used by something the rule does not bound: %v", unknown), c.P.InstrPos(in))
 					continue
 				}
-				lo := lfConst(constLen)
-				if msLen != nil {
-					lo = newBounder(fn, false, nil).Eval(msLen)
-				}
+				lo := bufLen
 				if lo.Top {
 					c.Undecided(rule, construct, "cannot bound the allocated length from below: "+lo.Why, c.P.InstrPos(in))
 					continue
@@ -1330,7 +1375,7 @@ func ruleWriteFits(c *Check, rule string) {
 				okb := true
 				for _, o := range obls {
 					nObl++
-					end := up.EvalAt(o.end, o.ext, o.at.Block())
+					end := o.up.EvalAt(o.end, o.ext, o.at.Block())
 					if end.Top {
 						c.Undecided(rule, construct, "cannot bound the end of a write ("+o.what+"): "+end.Why, c.P.InstrPos(o.at))
 						okb = false
@@ -1347,12 +1392,17 @@ func ruleWriteFits(c *Check, rule string) {
 				if okb {
 					detail := fmt.Sprintf("%d writes and slices; worst end %s ≤ allocated %s for all field lengths", len(obls), worst, lo)
 					var as []string
-					for a := range up.used {
-						as = append(as, fmt.Sprintf("len(%s) ≤ %d", a, up.assume[a]))
+					for _, up := range ups {
+						for a := range up.used {
+							as = append(as, fmt.Sprintf("len(%s) ≤ %d", a, up.assume[a]))
+						}
 					}
 					sort.Strings(as)
 					if len(as) > 0 {
 						detail += " (assuming " + strings.Join(as, ", ") + ")"
+					}
+					if len(ups) > 1 {
+						detail += fmt.Sprintf("; followed into %d helper(s) it is passed to", len(ups)-1)
 					}
 					c.Ok(rule, construct, detail, c.P.InstrPos(in))
 				}
@@ -1361,4 +1411,74 @@ func ruleWriteFits(c *Check, rule string) {
 	}
 	c.Floor(rule, nBuf, 3, "encoder scratch buffers")
 	c.Floor(rule, nObl, 15, "write-end obligations")
+}
+
+// copyGuarded: is copy(buf[off:], src) dominated by the true edge of
+// `len(src) <= len(buf) - off` (or `off + len(src) <= len(buf)`, or the same
+// test the other way round) on the very offset it writes at?
+func copyGuarded(call *ssa.Call, window *ssa.Slice, buf ssa.Value) bool {
+	src := call.Common().Args[1]
+	off := window.Low
+	isLenOf := func(v, of ssa.Value) bool {
+		c, ok := v.(*ssa.Call)
+		if !ok {
+			return false
+		}
+		b, ok := c.Common().Value.(*ssa.Builtin)
+		return ok && b.Name() == "len" && len(c.Common().Args) == 1 && c.Common().Args[0] == of
+	}
+	// lhs <= rhs shapes
+	fits := func(lhs, rhs ssa.Value) bool {
+		// len(src) <= len(buf) - off
+		if isLenOf(lhs, src) {
+			if sub, ok := rhs.(*ssa.BinOp); ok && sub.Op == token.SUB && isLenOf(sub.X, buf) && sub.Y == off {
+				return true
+			}
+		}
+		// off + len(src) <= len(buf)
+		if add, ok := lhs.(*ssa.BinOp); ok && add.Op == token.ADD && isLenOf(rhs, buf) {
+			if add.X == off && isLenOf(add.Y, src) || add.Y == off && isLenOf(add.X, src) {
+				return true
+			}
+		}
+		return false
+	}
+	b := call.Block()
+	child := b
+	for d := b.Idom(); d != nil; child, d = d, d.Idom() {
+		iff, ok := d.Instrs[len(d.Instrs)-1].(*ssa.If)
+		if !ok {
+			continue
+		}
+		cmp, ok := iff.Cond.(*ssa.BinOp)
+		if !ok {
+			continue
+		}
+		for e := 0; e < 2; e++ {
+			s := d.Succs[e]
+			if !((s == child || s.Dominates(b)) && len(s.Preds) == 1 && d.Succs[1-e] != s) {
+				continue
+			}
+			onTrue := e == 0
+			switch cmp.Op {
+			case token.LEQ:
+				if onTrue && fits(cmp.X, cmp.Y) {
+					return true
+				}
+			case token.GEQ:
+				if onTrue && fits(cmp.Y, cmp.X) {
+					return true
+				}
+			case token.GTR:
+				if !onTrue && fits(cmp.X, cmp.Y) {
+					return true
+				}
+			case token.LSS:
+				if !onTrue && fits(cmp.Y, cmp.X) {
+					return true
+				}
+			}
+		}
+	}
+	return false
 }
